@@ -590,7 +590,7 @@ func (ex *Executor) applyContract(st *State, fr *Frame, spec *FuncSpec, fn *ssa.
 	} else {
 		res = ex.havocResults(st, sig, "ret."+sanitize(name))
 	}
-	env2 := &SpecEnv{ex: ex, st: st, vars: env.vars, pkgRel: spec.Pkg, oldHeap: old, oldAlloc: oldAlloc}
+	env2 := &SpecEnv{ex: ex, st: st, vars: env.vars, pkgRel: spec.Pkg, oldHeap: old, oldAlloc: oldAlloc, assuming: true}
 	for i, r := range res {
 		env2.vars[fmt.Sprintf("ret%d", i)] = r
 		if i == 0 {
@@ -610,6 +610,12 @@ func (ex *Executor) applyContract(st *State, fr *Frame, spec *FuncSpec, fn *ssa.
 	for _, c := range spec.Ensures {
 		v, err := ex.evalSpec(c.Expr, env2)
 		if err != nil {
+			if strings.Contains(err.Error(), "is not a known closure") {
+				// a clause about the identity of a returned closure is proved for the callee but cannot be expressed over
+				// the opaque result at the call site: nothing is assumed from it (sound: the caller knows less)
+				ex.Notes[fmt.Sprintf("ensures of %s about a closure's captures is not used at call sites", spec.Key)] = true
+				continue
+			}
 			ex.errf("%s: ensures of %s %q: %v", ex.unitKey, spec.Key, c.Text, err)
 			return nil, false
 		}
